@@ -546,7 +546,7 @@ class Sim(FAM.FamilyMixin):
         self.ctx("alias", h)
         a = getattr(imath, h.tname)(h.real)
         nh = Handle(a, "arr", h.tname, h.store, h.idx, h.writable, h.masked)
-        nh.ulen, nh.upos = h.ulen, h.upos
+        nh.ulen, nh.upos, nh.ulen_alt = h.ulen, h.upos, getattr(h, "ulen_alt", ())
         self.add(nh)
 
     def op_convert(self, op):
@@ -643,13 +643,22 @@ class Sim(FAM.FamilyMixin):
         nh = Handle(a, "arr", h.tname, self.new_store(h.tname, want), range(len(want)), True)
         self.add(nh)
 
+    @staticmethod
+    def maybe_legal_lengths(h):
+        """operand / mask lengths other than len(h) that a masked handle may accept (the 'unmasked length'; for a masked
+        reference of a masked reference - refused today - every candidate a future implementation could choose)"""
+        s = set(getattr(h, "ulen_alt", ()))
+        if getattr(h, "ulen", None) is not None:
+            s.add(h.ulen)
+        return s
+
     def mask_bits(self, op, n, h=None):
         bits = list(op["m"])
         while len(bits) < n + 5:
             bits += bits or [1]
         d = op.get("dlen", 0)
         ln = 0 if d == "zero" else max(0, n + d)
-        if h is not None and h.masked and ln != n and ln == h.ulen:
+        while h is not None and h.masked and ln != n and ln in self.maybe_legal_lengths(h):
             # a mask as long as the array a masked reference was taken from is accepted (documented
             # non-strict match); that sub-case is neither demanded nor forbidden here: avoid it
             ln += 1
@@ -687,6 +696,8 @@ class Sim(FAM.FamilyMixin):
         pos = [k for k in range(n) if bits[k]]
         nh = Handle(got[1], "arr", h.tname, h.store, [h.idx[k] for k in pos], h.writable, True, h.comp)
         nh.ulen, nh.upos = (n, pos) if not h.masked else (None, None)
+        if h.masked:
+            nh.ulen_alt = self.maybe_legal_lengths(h) | {n}
         self.add(nh)
 
     def sel_indices(self, h, idx):
@@ -939,9 +950,9 @@ class Sim(FAM.FamilyMixin):
             per = [v] * n
         elif rhs in ("array", "badlen"):
             ln = n if rhs == "array" else [n + 1, 0, max(0, n - 1), 2 * n + 1][op["v"] % 4]
-            if ln == n:
+            if rhs == "badlen" and ln == n:
                 ln = n + 1
-            if ln != n and h.masked and ln == h.ulen:
+            while ln != n and h.masked and ln in self.maybe_legal_lengths(h):
                 ln += 1     # the unmasked length is a legal operand length for a masked left-hand side
             vals = [small(op["v"] * 16 + i) for i in range(ln)]
             # (one time in three the operand may be a view of the destination's own storage: r1 = a[m1]; r2 = a[m2];
@@ -1032,7 +1043,7 @@ class Sim(FAM.FamilyMixin):
             ci = [h.comp[c] for c in ci]
             self.inc("probe.component_of_component_view")
         nh = Handle(got[1], "arr", vt, h.store, h.idx, h.writable, h.masked, ci)
-        nh.ulen, nh.upos = h.ulen, h.upos
+        nh.ulen, nh.upos, nh.ulen_alt = h.ulen, h.upos, getattr(h, "ulen_alt", ())
         if h.masked:
             self.inc("probe.component_view_of_masked")
         self.add(nh)
@@ -1210,12 +1221,19 @@ class Sim(FAM.FamilyMixin):
         elif how == "strided":
             if n < 2:
                 return False     # (a one-element strided view is contiguous)
+            # right element type, rank and extent, but not contiguous. The property demands rejection only for a wrong
+            # type or size: a refusal is fine, and so is a copy of exactly the logical elements (checked below)
             if ndim == 1:
-                obj = memoryview(pyarray.array(fmt, [0] * (2 * n)))[::2]
+                obj = memoryview(pyarray.array(fmt, [v[0] for v in vals[:2 * n]]))[::2]
+                strided_want = [vals[2 * k] for k in range(n)]
             else:
-                # right element type and inner extent, but every 2nd row / rows in reverse order
+                # every 2nd row / rows in reverse order
                 rows = memoryview(bytearray(isz * width * 2 * n)).cast("B").cast(fmt, shape=[2 * n, width])
+                for r_ in range(2 * n):
+                    for c_ in range(width):
+                        rows[r_, c_] = vals[r_][c_]
                 obj = rows[::2] if op["v"] % 2 else rows[n - 1::-1]
+                strided_want = [vals[2 * k] for k in range(n)] if op["v"] % 2 else [vals[n - 1 - k] for k in range(n)]
         elif how == "bytes":
             obj = bytes(isz * width * n)
         elif how == "wrongsize":
@@ -1243,7 +1261,16 @@ class Sim(FAM.FamilyMixin):
             obj = getattr(imath, o2)(n)
         got = self.call(fn, obj)
         self.inc("fault.foreign_buffer_" + how)
-        # a buffer whose element type / rank / inner extent / layout does not match must be rejected
+        if how == "strided" and got[0] == "ok":
+            res = got[1]
+            if len(res) != n:
+                raise Violation("len", "%sFromBuffer(strided buffer of %d elements) has length %d" % (tname, n, len(res)))
+            for k in range(n):
+                if not self.elem_eq(tname, res[k], strided_want[k]):
+                    raise Violation("buffer-contents", "%sFromBuffer(strided buffer): element %d is %r, the buffer's element is %r" % (tname, k, res[k], strided_want[k]))
+            self.inc("outcome.strided_foreign_buffer_accepted")
+            return
+        # a buffer whose element type / rank / inner extent does not match must be rejected
         self.expect(got, True, "%sFromBuffer(%s buffer)" % (tname, how))
 
     def op_wbuf(self, op):
